@@ -40,6 +40,7 @@ bool aws_common_private_has_avx2(void);
 
 static struct aws_allocator *A;
 
+static int g_sample; /* set by a section for one fixed index: print that case verbatim as evidence */
 static const char *show_in(const uint8_t *p, size_t n) { return v_show(p, n > 200 ? 200 : n); }
 
 /* ------------------------------------------------------------------ views ------------------------------- */
@@ -148,7 +149,7 @@ static void xml_once(const uint8_t *p, size_t n, const uint8_t *show, unsigned p
     V_COUNT("xml_attributes", x.attrs);
     V_COUNT("xml_bodies", x.bodies);
     V_MAXSTAT("max_xml_depth", x.maxseen);
-    if (x.nodes >= 3 && rc == AWS_OP_SUCCESS) v_sample("xml policy=%s doc=%s -> success, %u nodes, %u attributes, depth %u", xp_name[pol], show_in(show, n), x.nodes, x.attrs, x.maxseen);
+    if (g_sample) v_sample("xml policy=%s doc=%s -> rc %d, %u nodes, %u attributes, %u bodies, depth %u", xp_name[pol], show_in(show, n), rc, x.nodes, x.attrs, x.bodies, x.maxseen);
 }
 static void run_xml(const uint8_t *bytes, size_t n, unsigned pol, size_t max_depth) {
     struct blk b = blk_new(bytes, n);
@@ -173,9 +174,9 @@ static void xml_str_eval(uint64_t idx, void *ctx) {
 static struct tmpl XML_T[] = {
     T("preamble", "<?xml version=\"1.0\"?><a>b</a>", 1, 2, 0),
     T("doctype+attr", "<!DOCTYPE a><a b=\"c\">d</a>", 1, 2, 0),
-    T("siblings", "<a><b>c</b><b/></a>", 2, 2, 0),
+    T("siblings", "<a><b>c</b><b/></a>", 1, 2, 0),
     T("same-name-nested", "<a b=\"c\"><a>x</a></a>", 1, 2, 0),
-    T("prefix-name", "<a><ab></ab></a>", 2, 2, 0),
+    T("prefix-name", "<a><ab></ab></a>", 1, 2, 0),
     T("gt-in-text", "<a>1>2<b>3</b></a>", 2, 2, 0),
     T("self-closing", "<a><b c=\"d\"/><e/></a>", 1, 2, 0),
     T("tiny", "<a></a>", 2, 2, 0),
@@ -223,6 +224,7 @@ static void xml_edit_eval(uint64_t idx, void *ctx) {
     uint8_t *w = esrc_get(&XML_SRC, idx, &pol, &ti, &n);
     if (!w) return;
     V_COUNT("xml_edit_cases", 1);
+    g_sample = (idx == 2 || idx == 4);
     run_xml(w, n, pol, XML_T[ti].aux);
     free(w);
 }
@@ -288,7 +290,7 @@ static void json_once(const uint8_t *p, size_t n, const uint8_t *show) {
     int rc = aws_byte_buf_append_json_string(v, &out);
     CHANNEL(rc, "channel:aws_byte_buf_append_json_string", show, n);
     aws_byte_buf_clean_up(&out);
-    if (s.values >= 4) v_sample("json %s -> accepted, %u values, depth %u", show_in(show, n), s.values, s.maxdepth);
+    if (g_sample) v_sample("json %s -> accepted, %u values, depth %u", show_in(show, n), s.values, s.maxdepth);
     aws_json_value_destroy(v);
 }
 static void run_json(const uint8_t *bytes, size_t n) {
@@ -349,6 +351,7 @@ static void json_edit_eval(uint64_t idx, void *ctx) {
     uint8_t *w = esrc_get(&JSON_SRC, idx, &low, &ti, &n);
     if (!w) return;
     V_COUNT("json_edit_cases", 1);
+    g_sample = (idx == 0);
     run_json(w, n);
     free(w);
 }
@@ -455,7 +458,7 @@ static void cbor_once(const uint8_t *p, size_t n, const uint8_t *show) {
     V_COUNT("cbor_ok_calls", st.ok_ops);
     V_COUNT("cbor_views_checked", st.views);
     V_MAXSTAT("max_cbor_elements_walked", st.elements);
-    if (st.views >= 4 && n <= 8) v_sample("cbor %s -> %u successful calls, %u text/bytes views inside the input", show_in(show, n), st.ok_ops, st.views);
+    if (g_sample) v_sample("cbor %s -> %u successful calls, %u text/bytes views inside the input", show_in(show, n), st.ok_ops, st.views);
 }
 static void run_cbor(const uint8_t *bytes, size_t n) {
     struct blk b = blk_new(bytes, n);
@@ -496,15 +499,21 @@ static struct tmpl CBOR_T[] = {
     T("ints", "\x18\xff\x19\x01\x00\x1a\x00\x01\x00\x00\x1b\x00\x00\x00\x01\x00\x00\x00\x00\x38\xff\x3b\xff\xff\xff\xff\xff\xff\xff\xff", 1, 1, 0),
     {"nest-definite-64", NULL, 0, 1, 2, 0},
     {"nest-indefinite-64", NULL, 0, 1, 2, 0},
-    {"nest-definite-4096", NULL, 0, 0, 0, 0},
-    {"nest-indefinite-4096", NULL, 0, 0, 0, 0},
-    {"tag-chain-4096", NULL, 0, 0, 0, 0},
+    {"nest-definite-1024", NULL, 0, 0, 0, 0},
+    {"nest-indefinite-1024", NULL, 0, 0, 0, 0},
+    {"tag-chain-1024", NULL, 0, 0, 0, 0},
+    {"nest-definite-4096", NULL, 0, -1, 0, 0},
+    {"nest-indefinite-4096", NULL, 0, -1, 0, 0},
+    {"tag-chain-4096", NULL, 0, -1, 0, 0},
 };
 #define CBOR_NT ((int)(sizeof(CBOR_T) / sizeof(CBOR_T[0])))
 static struct esrc CBOR_SRC = {CBOR_T, CBOR_NT, CBOR_FOLLOW, 16, 1};
 static void cbor_init(void) {
-    CBOR_T[CBOR_NT - 5].p = rep3("\x81", 64, "\x00", "", &CBOR_T[CBOR_NT - 5].n);
-    CBOR_T[CBOR_NT - 4].p = rep3("\x9f", 64, "\x00", "\xff", &CBOR_T[CBOR_NT - 4].n);
+    CBOR_T[CBOR_NT - 8].p = rep3("\x81", 64, "\x00", "", &CBOR_T[CBOR_NT - 8].n);
+    CBOR_T[CBOR_NT - 7].p = rep3("\x9f", 64, "\x00", "\xff", &CBOR_T[CBOR_NT - 7].n);
+    CBOR_T[CBOR_NT - 6].p = rep3("\x81", 1024, "\x01", "", &CBOR_T[CBOR_NT - 6].n);
+    CBOR_T[CBOR_NT - 5].p = rep3("\x9f", 1024, "\x01", "\xff", &CBOR_T[CBOR_NT - 5].n);
+    CBOR_T[CBOR_NT - 4].p = rep3("\xc1", 1024, "\x01", "", &CBOR_T[CBOR_NT - 4].n);
     CBOR_T[CBOR_NT - 3].p = rep3("\x81", 4096, "\x01", "", &CBOR_T[CBOR_NT - 3].n);
     CBOR_T[CBOR_NT - 2].p = rep3("\x9f", 4096, "\x01", "\xff", &CBOR_T[CBOR_NT - 2].n);
     CBOR_T[CBOR_NT - 1].p = rep3("\xc1", 4096, "\x01", "", &CBOR_T[CBOR_NT - 1].n);
@@ -519,6 +528,7 @@ static void cbor_edit_eval(uint64_t idx, void *ctx) {
     uint8_t *w = esrc_get(&CBOR_SRC, idx, &low, &ti, &n);
     if (!w) return;
     V_COUNT("cbor_edit_cases", 1);
+    g_sample = (idx == 0);
     run_cbor(w, n);
     free(w);
 }
@@ -599,7 +609,7 @@ static void uri_once(const uint8_t *p, size_t n, const uint8_t *show) {
             V_COUNT("uri_query_params", aws_array_list_length(&lst));
         }
         aws_array_list_clean_up(&lst);
-        if (cnt >= 2 && u->scheme.len) v_sample("uri %s -> scheme %zu authority %zu host %zu port %u path %zu query %zu bytes, %u params", show_in(show, n), u->scheme.len, u->authority.len, u->host_name.len, u->port, u->path.len, u->query_string.len, cnt);
+        if (g_sample) v_sample("uri %s -> scheme %zu authority %zu host %zu port %u path %zu query %zu bytes, %u params", show_in(show, n), u->scheme.len, u->authority.len, u->host_name.len, u->port, u->path.len, u->query_string.len, cnt);
         aws_uri_clean_up(u);
     }
     free(u);
@@ -671,6 +681,7 @@ static void uri_edit_eval(uint64_t idx, void *ctx) {
     uint8_t *w = esrc_get(&URI_SRC, idx, &low, &ti, &n);
     if (!w) return;
     V_COUNT("uri_edit_cases", 1);
+    g_sample = (idx == 0);
     run_uri(w, n);
     free(w);
 }
@@ -718,7 +729,7 @@ static void date_once(const uint8_t *p, size_t n, const uint8_t *show) {
     V_COUNT("date_runs", 1);
     V_COUNT("date_parser_calls", 8);
     if (accepted) V_COUNT("nontrivial", 1); /* accepted under at least one format selector */
-    if (accepted == 4 && n > 20) v_sample("date %s -> accepted by two of the four format selectors", show_in(show, n));
+    if (g_sample) v_sample("date %s -> accepted by %u of the 8 (format selector x entry point) calls", show_in(show, n), accepted);
 }
 static void run_date(const uint8_t *bytes, size_t n) {
     struct blk b = blk_new(bytes, n);
@@ -805,6 +816,7 @@ static void date_edit_eval(uint64_t idx, void *ctx) {
     uint8_t *w = esrc_get(&DATE_SRC, idx, &low, &ti, &n);
     if (!w) return;
     V_COUNT("date_edit_cases", 1);
+    g_sample = (idx == 0);
     run_date(w, n);
     free(w);
 }
